@@ -22,12 +22,19 @@ from openjd.model.v2023_09._model import StepDependency  # noqa: E402
 SCRIPT = StepScript(actions=StepActions(onRun=Action(command="x")))
 
 
+# how a step number is spelled as a step name: the graph is about the steps, whatever they are called — names that are
+# format templates themselves ('render {shot}', '{}', '{0}', '%s'), names with dots, colons, blanks
+STYLES = ["s", "render {shot} ", "{} ", "{0}{1} ", "%s %d ", "a.b:", "{{Param.X}} ", "{", "}} "]
+_style = [0]
+
+
 def sname(k: int) -> str:
-    return f"s{k}"
+    return f"{STYLES[_style[0]]}{k}"
 
 
 def unname(s: str) -> int:
-    return int(s[1:])
+    import re as _re
+    return int(_re.search(r"(\d+)\Z", s).group(1))
 
 
 def exn_family(e: BaseException) -> str:
@@ -269,6 +276,15 @@ class C15(core.PropBase):
         # 3. malformed stream: unknown targets, repeated step names, no steps, self edges
         for _ in range(15000 if thorough else 2000):
             yield malformed(rng)
+        # 3b. the same graphs under other spellings of the step names (hand-assembled Jobs only: a template's name rules
+        #     are C01's): cyclic ones entered from outside the cycle included
+        for _ in range(15000 if thorough else 1500):
+            c = random_dag(rng, rng.choice([3, 5, 8, 12]), dup=rng.random() < 0.2, back=rng.randint(0, 3))
+            c["style"] = rng.randrange(1, len(STYLES))
+            yield c
+        for c in sampled_digraphs(4, 4000 if thorough else 500, rng, "hand"):
+            c["style"] = rng.randrange(1, len(STYLES))
+            yield c
         # 4. decoded templates: verdict + graph of the created Job
         for n in (1, 2, 3):
             yield from all_digraphs(n, True, rng, "tmpl")
@@ -307,9 +323,13 @@ class C15(core.PropBase):
         return any(ds for _, ds in case["steps"])
 
     def impl(self, case):
-        if case["kind"] == "hand":
-            return observe_job(hand_job(case["steps"]))
-        return observe_template(case["steps"])
+        _style[0] = case.get("style", 0)
+        try:
+            if case["kind"] == "hand":
+                return observe_job(hand_job(case["steps"]))
+            return observe_template(case["steps"])
+        finally:
+            _style[0] = 0
 
     def requests(self, case):
         if case["kind"] == "hand":
